@@ -52,14 +52,17 @@ def check(d, pids):
     rc, out = sh("git -C /repo apply %s" % os.path.join(d, "patch.diff"), "/")
     assert rc == 0, out
     res = {}
+    bak = tempfile.mkdtemp(prefix="evbak_", dir=os.path.join(V, "_build"))
+    sh("cp -a evidence/. %s/" % bak, V)     # evidence committed comes from clean-tree runs only
     try:
         for pid in pids:
             rc, out = sh("timeout 1500 bin/check --property %s --tier quick" % pid, V)
-            v = [l for l in out.splitlines() if l.startswith(("VIOLATION", "KNOWN-FINDING"))]
+            v = [l for l in out.splitlines() if l.startswith("VIOLATION")] + ["(+%d KNOWN-FINDING lines)" % sum(1 for l in out.splitlines() if l.startswith("KNOWN-FINDING"))]
             res[pid] = {"rc": rc, "lines": [l[:160] for l in v]}
             print(pid, rc, v[:2], flush=True)
     finally:
         sh("git -C /repo checkout -- .", "/")
+        sh("cp -a %s/. evidence/ && rm -rf %s" % (bak, bak), V)
     return res
 
 
